@@ -12,7 +12,7 @@ structure HInv (m : Nat) (s : State) : Prop where
   tot : s.total = liveCount s + nReserved s
   lim : s.max ≠ 0 → s.total ≤ s.max
   one : ∀ c, holders s c ≤ 1
-  live : ∀ (c : Nat) (x : Conn), s.conns[c]? = some x → x.dead = false → holders s c = 1
+  live : s.closed = false → ∀ (c : Nat) (x : Conn), s.conns[c]? = some x → x.dead = false → holders s c = 1
   dang : ∀ c, s.conns.length ≤ c → holders s c = 0
 
 theorem liveCount_eq_map (s : State) :
@@ -32,9 +32,9 @@ holders and keeps it for live connections preserves the invariant. -/
 theorem hinv_of_le {m : Nat} {s s' : State} (hI : HInv m s)
     (hmax : s'.max = s.max) (htot : s'.total = s.total)
     (hconns : s'.conns.map (·.dead) = s.conns.map (·.dead))
-    (hres : nReserved s' = nReserved s)
+    (hres : nReserved s' = nReserved s) (hcl : s'.closed = s.closed)
     (hh : ∀ c, holders s' c ≤ holders s c)
-    (hl : ∀ (c : Nat) (x : Conn), s.conns[c]? = some x → x.dead = false → holders s' c = holders s c) :
+    (hl : s.closed = false → ∀ (c : Nat) (x : Conn), s.conns[c]? = some x → x.dead = false → holders s' c = holders s c) :
     HInv m s' := by
   have hlen : s'.conns.length = s.conns.length := by
     have := congrArg List.length hconns
@@ -43,10 +43,11 @@ theorem hinv_of_le {m : Nat} {s s' : State} (hI : HInv m s)
   · rw [htot, hI.tot, liveCount_eq_map, liveCount_eq_map, hconns, hres]
   · rw [hmax, htot]; exact hI.lim
   · intro c; exact Nat.le_trans (hh c) (hI.one c)
-  · intro c x' hx' hd
+  · intro hc c x' hx' hd
+    have hc' : s.closed = false := by rw [← hcl]; exact hc
     obtain ⟨x, hx, hxd⟩ := dead_of_map hconns c x' hx'
-    rw [hl c x hx (by rw [hxd]; exact hd)]
-    exact hI.live c x hx (by rw [hxd]; exact hd)
+    rw [hl hc' c x hx (by rw [hxd]; exact hd)]
+    exact hI.live hc' c x hx (by rw [hxd]; exact hd)
   · intro c hc
     have := hI.dang c (by rw [← hlen]; exact hc)
     have := hh c
@@ -132,19 +133,20 @@ theorem holders_conn_set (s : State) (d : Nat) (cn cn' : Conn) (h : s.conns[d]? 
 
 theorem release_spec {s s1 : State} {d : Nat} {k : Option Nat} (h : release s d k = some s1) :
     (∀ c, holders s1 c = holders s c + (if d = c then 1 else 0)) ∧
-    s1.max = s.max ∧ s1.total = s.total ∧ s1.conns = s.conns ∧ s1.callers = s.callers ∧ s1.gen = s.gen := by
+    s1.max = s.max ∧ s1.total = s.total ∧ s1.conns = s.conns ∧ s1.callers = s.callers ∧ s1.gen = s.gen ∧
+    s1.closed = s.closed := by
   cases k with
   | none =>
     simp only [release] at h
     split at h
     · cases h
-      exact ⟨fun c => holders_free_push s d c, rfl, rfl, rfl, rfl, rfl⟩
+      exact ⟨fun c => holders_free_push s d c, rfl, rfl, rfl, rfl, rfl, rfl⟩
     · cases h
   | some k =>
     simp only [release] at h
     split at h
     · cases h
-      exact ⟨fun c => holders_inbox_send s _ k d c, rfl, rfl, rfl, rfl, rfl⟩
+      exact ⟨fun c => holders_inbox_send s _ k d c, rfl, rfl, rfl, rfl, rfl, rfl⟩
     · cases h
 
 end TdModel.C27
